@@ -170,6 +170,20 @@ def size_sweep(ctx, rng, cache, destroot, modes):
     for si, size in enumerate(sizes):
         algo = "sha256" if si % 3 else rng.choice(gen.ALGOS)
         data = rng.randbytes(size)
+        # not every payload is random bytes: runs of zeros (sparse files, disk images, padded archives) at the start, in
+        # the middle, at the end, or all the way
+        shape = ("random", "all-zero", "zero-tail", "zero-head", "zero-middle")[si % 5]
+        if size >= 2 and shape != "random":
+            z = max(1, min(size // 2, 8192)) if size < 16384 else rng.choice([4096, 8192, size // 2 // 4096 * 4096 or 4096])
+            if shape == "all-zero":
+                data = bytes(size)
+            elif shape == "zero-tail":
+                data = data[:size - z] + bytes(z)
+            elif shape == "zero-head":
+                data = bytes(z) + data[z:]
+            else:
+                a = (size - z) // 2
+                data = data[:a] + bytes(z) + data[a + z:]
         key = f"sweep-{size}"
         w = ctx.call("sync@astd", {"op": "write", "cache": cache, "key": key, "algo": algo, "data": ctx.data(data)})
         if not ev.is_ok(w):
